@@ -395,6 +395,8 @@ class Kernel:
                 cur.spin_b = cur.spin_a
                 cur.spin_a = site
                 cur.spin_n = 0
+            if self.preempt == "sync":
+                return  # line events only feed the spin detector in this mode
         pol = self.policy
         if pol == "sticky":
             return
